@@ -1459,6 +1459,13 @@ int xmpp_conn_restore_sm_state(xmpp_conn_t *conn,
         item->owner = XMPP_QUEUE_USER;
     }
 
+    if (sm.state != sm.state_end) {
+        strophe_error(conn->ctx, "conn",
+                      "Provided sm_state data has trailing garbage");
+        ret = XMPP_EINVOP;
+        goto err_reload;
+    }
+
     return XMPP_EOK;
 
 err_reload:
